@@ -126,6 +126,10 @@ func zoneString(off int) string {
 	return fmt.Sprintf("%c%02d:%02d", sign, off/3600, off/60%60)
 }
 
+func init() {
+	drivers["C18TZ"] = driveC18 // the same driver in a process whose TZ names a zone with daylight saving (set by the check)
+}
+
 func driveC18(c *driverCtx) error {
 	// process history first: offsets outside the usual range (minutes and hours a lenient parser lets through) are
 	// parsed BEFORE the valid timestamps, so that whatever they leave behind in caches is there when those arrive
@@ -133,9 +137,9 @@ func driveC18(c *driverCtx) error {
 		emitTimeParse(c, "prelude|odd-offset", "2006-01-02T13:37:42"+z)
 	}
 	// grammar-directed grid
-	years := []int{0, 1, 1969, 1970, 2000, 2024, 9999}
+	years := []int{0, 1, 1600, 1900, 1969, 1970, 2000, 2024, 2100, 2200, 2400, 9999} // century years: leap-year rules
 	months := []int{1, 2, 6, 12}
-	offs := []int{0, 60, -60, 3600, 30060, -30060, 50400, -43200, 86340, -86340}
+	offs := []int{0, 60, -60, 3600, 30060, -30060, 50400, -43200, 86340, -86340, -14400, -18000, 37800, 39600, 7200} // incl. both offsets of the zones the TZ pass runs in
 	nanos := []int{0, 1, 326000000, 326876123, 999999999, 100000000}
 	n := 0
 	for _, y := range years {
@@ -152,8 +156,9 @@ func driveC18(c *driverCtx) error {
 						if !c.thorough() && n%3 != 0 {
 							continue
 						}
-						ns := nanos[n%len(nanos)]
-						off := offs[n%len(offs)]
+						q := n / 3 // (n itself is a multiple of 3 in the quick tier: it would only ever reach a third of the lists)
+						ns := nanos[q%len(nanos)]
+						off := offs[q%len(offs)]
 						sep := []byte{'.', ','}[n%2]
 						s := fmt.Sprintf("%04d-%02d-%02dT%02d:%02d:%02d%s%s", y, mo, d, h, (n*7)%60, 59-(n*11)%60, fracString(ns, k, sep), zoneString(off))
 						emitTimeParse(c, fmt.Sprintf("grid|frac%d", k), s)
@@ -233,6 +238,12 @@ func driveC18(c *driverCtx) error {
 	{
 		perm := c.rng.Perm(28*60 + 1)
 		nrun := c.pick(1200, 2*len(perm))
+		type heldTime struct {
+			s   string
+			t   time.Time
+			out string
+		}
+		var held []heldTime
 		for i := 0; i < nrun; i++ {
 			off := (perm[i%len(perm)] - 14*60) * 60
 			if off == 0 {
@@ -243,6 +254,17 @@ func driveC18(c *driverCtx) error {
 			t, out := parseVia("reused", s)
 			c.rec.NewCase()
 			c.rec.Emit("C18|reused-sequence|all-offsets", map[string]any{"op": "time_parse", "s": byteList([]byte(s)), "text": s, "out": out, "t": timeNode(t),
+				"std_ok": err == nil, "std": timeNode(std)})
+			held = append(held, heldTime{s, t, out})
+		}
+		// the application still holds every one of those times: looked at again now, each is what it was
+		for i, h := range held {
+			if !c.thorough() && i%3 != 0 {
+				continue
+			}
+			std, err := time.Parse(time.RFC3339, h.s)
+			c.rec.NewCase()
+			c.rec.Emit("C18|reused-sequence|held", map[string]any{"op": "time_parse", "s": byteList([]byte(h.s)), "text": h.s, "out": h.out, "t": timeNode(h.t),
 				"std_ok": err == nil, "std": timeNode(std)})
 		}
 	}
